@@ -6,6 +6,7 @@ import AvroModel.Drv.Mal
 import AvroModel.Drv.Time
 import AvroModel.Drv.Bank
 import AvroModel.Drv.Conc
+import AvroModel.Drv.SchemaGen
 open Avro Avro.Sexp Avro.Drv
 
 def dispatch (prop : String) (op : String) (args : List Sexp) : Verdict :=
@@ -22,6 +23,8 @@ def dispatch (prop : String) (op : String) (args : List Sexp) : Verdict :=
   | "C19" => c19 op args
   | "C10" => c10 op args
   | "C12" => c12 op args
+  | "C15" => c15 op args
+  | "C20" => c20 op args
   | _ => .bad s!"unknown property {prop}"
 
 partial def loop (prop : String) (h : IO.FS.Stream) (out : IO.FS.Stream) : IO Unit := do
